@@ -25,6 +25,11 @@ type Worker struct {
 	implCache                                  map[[2]types.Type]bool
 	methodCache                                map[methodKey]*ssa.Function
 	inNested                                   int
+	sbvCache                                   map[*Term]*Term
+	DomainDecisions, DomainRechecks            int
+	DomainDisagreements                        int
+	RecheckRate                                float64
+	rngState                                   uint64
 	Steps                                      int64
 }
 
@@ -35,7 +40,8 @@ type methodKey struct {
 
 func NewWorker(p *Program, backend string, logPath string) (*Worker, error) {
 	w := &Worker{P: p, Pool: NewTermPool(), FuelPerPath: 5_000_000, MaxDepth: 400,
-		identCache: map[[2]types.Type]bool{}, implCache: map[[2]types.Type]bool{}, methodCache: map[methodKey]*ssa.Function{}}
+		identCache: map[[2]types.Type]bool{}, implCache: map[[2]types.Type]bool{}, methodCache: map[methodKey]*ssa.Function{},
+		sbvCache: map[*Term]*Term{}}
 	s, err := NewSolver(backend, w.Pool, logPath)
 	if err != nil {
 		return nil, err
@@ -45,6 +51,19 @@ func NewWorker(p *Program, backend string, logPath string) (*Worker, error) {
 }
 
 func (w *Worker) Close() { w.Solver.Close() }
+
+// recheckDue decides pseudo-randomly (seeded, deterministic per worker)
+// whether the next byte-domain verdict is re-checked with the solver.
+func (w *Worker) recheckDue() bool {
+	if w.RecheckRate <= 0 {
+		return false
+	}
+	if w.RecheckRate >= 1 {
+		return true
+	}
+	w.rngState = w.rngState*6364136223846793005 + 1442695040888963407
+	return float64(w.rngState>>11)/float64(1<<53) < w.RecheckRate
+}
 
 func (w *Worker) identical(a, b types.Type) bool {
 	if a == b {
@@ -70,6 +89,7 @@ func (w *Worker) implements(t types.Type, it types.Type) bool {
 }
 
 type goPanicReq struct{ v Value }
+type endReq struct{}
 
 // goPanic raises a Go-level panic in the interpreted program.
 func (s *State) goPanic(v Value) { panic(goPanicReq{v: v}) }
@@ -149,6 +169,7 @@ func (w *Worker) runGuarded(st *State) (kids []*State, again bool) {
 				}()
 				kids[i] = c
 			}
+		case endReq:
 		case abortReq:
 			st.Status = PathAborted
 			st.AbortMsg = x.msg + st.where()
@@ -204,6 +225,12 @@ func (s *State) pushCall(fv *FuncV, args []Value, dst int, isDefer bool) {
 		s.abort("call of function without body: %s", fn.String())
 	}
 	if len(s.frames) >= s.W.MaxDepth {
+		if s.W.Job != nil && s.W.Job.DepthIsViolation {
+			s.recordViolation("unbounded-recursion", fmt.Sprintf("call depth bound %d exceeded in %s", s.W.MaxDepth, fn.String()))
+			s.frames = nil
+			s.Status = PathDone
+			panic(endReq{})
+		}
 		s.abort("call depth bound %d exceeded (unbounded recursion?) in %s", s.W.MaxDepth, fn.String())
 	}
 	fi := s.W.P.info(fn)
